@@ -7,7 +7,7 @@ PREDICATE = 'C05'
 LEAN_TARGETS = ['LLTD.Props.C05']
 VARIANT = 'plain'
 EXHAUSTIVE = True
-RULE = ('every tier: all 256 x 256 (ToS, opcode) frames from a stranger while a mapper is active, each followed by a Discover from the '
+RULE = ('every tier: ALL frame sequences up to length 2 (thorough: 3, and 4 over nine symbols) over an alphabet of 23 representative frames (frame type x sender x path x service);  all 256 x 256 (ToS, opcode) frames from a stranger while a mapper is active, each followed by a Discover from the '
         'mapper and one from the stranger (thorough: also from the mapper itself and with no mapper active); plus seeded histories over '
         '4 stations issuing Discover/Reset/Hello/Probe/Emit/Query/QueryLargeTlv with any ToS, commands only from the active mapper or '
         'while none is active, Discover/Reset/commands arriving directly or through a bridge (Ethernet source = another station of the pool); '
@@ -79,6 +79,10 @@ def cases(rng, tier, X):
     out = sweep(tier)
     n = 300 if tier == 'quick' else 30000
     out += [('hist%d' % k, history(rng)) for k in range(n)]
+    # small scope, exhaustively: every frame sequence up to length 2 (quick) / 3 (thorough) over the 23-symbol alphabet, and up to length 4 over 9 symbols
+    out += F.small_scope(2 if tier == 'quick' else 3)
+    if tier == 'thorough':
+        out += [c for c in F.small_scope(4, symbols={'dA', 'dB', 'dA1', 'rA', 'rB1', 'eA', 'qA', 'lB1', 'p1'}) if c[0].count('_') == 4]
     # universal traffic (every frame type / sender / path / service / boundary value, 1..3 interfaces): this check's predicate on it
     for k in range(60 if tier == 'quick' else 6000):
         out.append(('u%d' % k, F.universal(rng)))
